@@ -34,9 +34,9 @@ CLAIMED = {
    note=BASE + "Floats are exact decimals in the model (generators avoid rounding ties); str::parse for floats is characterised only through the correspondence; non-ASCII digits / exponent spellings counted as unmodelled.", tech=P, ref="§6 C04, notes/C04.md"),
  "C05": dict(
    text="Theorems: C05_suffix_parse (is_possible_plural iff key = base(_ordinal)?_form), C05_cand_insert + C05_loop_candidate (same base+form twice = cardinal/ordinal clash -> error), C05_finish_group (merged iff >=2 candidates incl. other; errors InvalidKey / "
-        "ConflictingPluralRuleType / PluralsAtNormalKey in that order), C05_unused_forms, C05_render_plural + C05_parse_time_eq_run_time (form of the CLDR category else other, same at parse time and run time). "
+        "ConflictingPluralRuleType / PluralsAtNormalKey in that order), C05_unused_forms, C05_render_plural + C05_parse_time_eq_run_time (form of the CLDR category else other, same at parse time and run time); whole map (Theorems/C05Map.lean): C05_merge_plurals_map / _all_levels (merge_plurals = a declarative specification — group by base, decide per group — on every level: same map, same error, same warnings in the same order), C05_nonplural_keys_untouched, C05_merged_key_iff, C05_forms_exact. "
         "Correspondence: all form subsets x cardinal/ordinal x 10 locales (en fr ru ar pl ja cy ga he lt): merged keys, warnings, errors and the form rendered for counts 0..=200, 10^6, 1.5 via the ICU4X oracle.",
-   note=BASE + "CLDR plural rules (ICU4X compiled data) are an oracle, not verified. No whole-map statement for merge_plurals (per-group + loop invariant).", tech=P, ref="§6 C05, notes/C05.md"),
+   note=BASE + "CLDR plural rules (ICU4X compiled data) are an oracle, not verified. Hypotheses of the whole-map theorem (sorted keys without white space) are what decoding establishes (C05_map_decoded_keys_wf, per level).", tech=P, ref="§6 C05, notes/C05.md"),
  "C06": dict(
    text="Theorems: C06_populate_subst (eval of populate v args = eval of v under the substituted environment: variables, literal counts fixing the branch, renamed counts; mutual induction over all value kinds), C06_populate_chain, "
         "C06_resolveNode_sound, C06_resolved_no_notset, C06_resolve_missing/_cycle/_self_reference/_two_cycle, C06_populate_errors (subkey target rejected), C06_resolve_fuel_monotone, C06_resolveAll_memo + C06_order_independent(_perm/_leaf/_eval/_full_of_wf) (Theorems/C06Order.lean: the resolved values are a function of the original world, whatever the order and the fuel in which resolve_foreign_keys visits the keys), C06_resolveAll_repeat (idempotent). "
@@ -44,11 +44,11 @@ CLAIMED = {
    note=BASE + "Order independence is proved for worlds satisfying WorldWF (distinct keys per locale — what decoding produces); leaf equality, not pointer identity of shared cells. F11/F20 (null/absent target in an inheriting locale) are fixed (4bd75c2): C06_target_from_fallback_walk states that a reference reads its target in the effective locale of C03, C06_args_in_reference_locale that arguments and plural category stay in the locale of the reference.", tech=P, ref="§6 C06, notes/C06.md"),
  "C07": dict(
    text="Theorems: C07_builder_keys_eq_default, C07_merge_preserves_keys/_tree, C07_warnings_exact_flat/_nested, C07_check_warnings_exact (the warnings of check_locales_inner are exactly the spec list, in order), C07_no_warning_for_default, "
-        "C07_warnings_nodup_flat, C07_inherits_silences_missing, C07_suppress_silences_surplus, C07_subkey_mismatch_error. Correspondence: both feature builds (suppress_key_warnings on/off): emitted warnings as a multiset vs the set computed independently from the files.",
+        "C07_warnings_nodup_flat, C07_inherits_silences_missing, C07_suppress_silences_surplus, C07_subkey_mismatch_error; whole pipeline (Theorems/C07Pipeline.lean): C07_pipeline(_of_config) (whenever Pipeline.run succeeds the warnings are exactly the earlier stages' warnings followed by the specification list computed from the resolved files, in order, and the builder keys have exactly the default locale's key tree at every depth), C07_pipeline_diagnostics_set, C07_pipeline_mismatch_sound/_complete/_iff, C07_pipeline_error_kinds. Correspondence: both feature builds (suppress_key_warnings on/off): emitted warnings as a multiset vs the set computed independently from the files.",
    note=BASE + "Plural merging happens before check_locales and is covered by C05; key distinctness (BTreeMap invariant) is an explicit, proved-established hypothesis.", tech=P, ref="§6 C07, notes/C07.md"),
  "C08": dict(
    text="Theorems: C08_keys_exact (get_keys_inner adds exactly the occurrences of variables/formatters/components/counts), C08_count_conflicts (error iff two count kinds disagree), C08_union_over_locales + C08_required_arguments "
-        "(the key's fields = union over locales), C08_lit_kind (literal accessor iff every locale has a literal of one type). Correspondence: builder fields of the real parser vs the union of occurrences in each locale's final value; positive probe crate "
+        "(the key's fields = union over locales), C08_lit_kind (literal accessor iff every locale has a literal of one type); whole pipeline (Theorems/C08Pipeline.lean): C08_pipeline (whenever Pipeline.run succeeds, for every leaf key path of any depth the recorded variables, formatters, components and count kinds are exactly the union over the locales defining the key of the occurrences in their resolved values), C08_pipeline_builder_iff, C08_pipeline_count_conflict_sound/_complete/_iff. Correspondence: builder fields of the real parser vs the union of occurrences in each locale's final value; positive probe crate "
         "(supplying exactly that set compiles and renders); negative probes (omit a member / unknown argument / unknown key must not compile).",
    note=BASE + "`Compiles iff exactly that set is supplied` is TypedBuilder type-state: trusted, exercised by probe crates only.", tech=P, ref="§6 C08, notes/C08.md"),
  "C09": dict(
@@ -84,17 +84,17 @@ CLAIMED = {
    text="Lean theorems over a model of routing.rs path functions (PathBuilder, get_locale_from_path, get_new_path, localize_path, match/construct_path_segments): "
         "a locale is read iff the first segment after the base equals a locale name (C14_locale_from_path_iff); switching preserves every non-locale, non-localized "
         "segment, query and fragment (C14_switch_preserves/_meets_spec); A→B→A is the identity on normalised URLs under an explicit decidable compatibility hypothesis "
-        "(C14_switch_roundtrip). Correspondence: router_h include!s the private routing.rs and runs the real functions on generated locale sets, base paths, tables, paths and switch sequences.",
+        "(C14_switch_roundtrip); C14_match_iff_serves (the matcher succeeds iff the route declaratively serves the path) and C14_switch_rewrites_localized (if the old URL is served by a route of the old locale, the new URL is served by the same route of the new locale: every localized segment is rewritten). Correspondence: router_h include!s the private routing.rs and runs the real functions on generated locale sets, base paths, tables, paths and switch sequences.",
    note=BASE + "generate_routes/match_nested and leptos_router's own matching are not modelled (tables assumed position-wise compatible); see notes/C14.md. No hooks (include!).",
    tech="Lean 4 proof (induction over segment lists) + differential correspondence", ref="§6 C14, notes/C14.md"),
  "C15": dict(
    text="Lean theorems stating the documented precedence outright over a model of fetch_locale/resolve_locale/init_*context (cookie > Accept-Language match > default; sub-context: cookie > initial > parent > resolution; "
-        "invalid cookie behaves like no cookie) for all inputs; thin theorems — the exhaustive correspondence run (≈117k combinations of cookie × cookie name × enabled × header × parent × initial on the real ssr code) carries most of the weight.",
+        "invalid cookie behaves like no cookie) for all inputs; thin theorems — the exhaustive correspondence run (≈146k combinations of cookie × cookie name × enabled × header × {main context, the generated <I18nContextProvider> component with its html-attribute props unset/true/false, resolve_locale* alone and under an already provided context, sub-contexts × parent × initial} on the real ssr code) carries most of the weight.",
    note=BASE + "leptos-use's header/cookie readers and q-value handling are oracles; client-side (hydrate/csr) paths are modelled but not executed. See notes/C15.md.",
    tech="Lean 4 proof (decision logic) + exhaustive differential correspondence", ref="§6 C15, notes/C15.md"),
  "C16": dict(
    text="Refinement theorem: for every operation sequence over a tree of contexts (set, set_untracked, get, scope, subcontext, closures) the model's observations equal the abstract spec CtxId→Locale "
-        "(latest set wins; scoped views share the cell; sub-contexts isolated) — C16_refinement, C16_isolation(_seq), C16_scope_shares; reactive observers: C16_memo_refinement (Memos with leptos' laziness modelled: a tracked set marks every observer dirty, an untracked one none — C16_tracked_set_notifies(_after_untracked), C16_untracked_set_keeps_cache); provider components over an owner tree: C16_provider_scoping(_seq), C16_sibling_provider_inits_from_parent. Correspondence: random op sequences (set/set_untracked/get/scope/subcontext/memo/provider/child owner/use_context) on real I18nContexts and leptos owners vs model vs spec.",
+        "(latest set wins; scoped views share the cell; sub-contexts isolated) — C16_refinement, C16_isolation(_seq), C16_scope_shares; reactive observers: C16_memo_refinement (Memos with leptos' laziness modelled: a tracked set marks every observer dirty, an untracked one none — C16_tracked_set_notifies(_after_untracked), C16_untracked_set_keeps_cache); provider components over an owner tree: C16_provider_scoping(_seq), C16_sibling_provider_inits_from_parent. Correspondence: random op sequences (set/set_untracked/get/scope/subcontext/memos over get_locale, t_string!, td_string!, t_display!, t_plural!/provider/child owner/use_context, accessors of every macro flavour incl. t_plural!) on real I18nContexts and leptos owners vs model vs spec.",
    note=BASE + "leptos' reactive runtime (closure re-execution, RwSignal atomicity, effects) is trusted; the RenderEffect wiring an initial-locale signal is inert under ssr. See notes/C16.md.",
    tech="Lean 4 proof (refinement by induction over op lists) + differential correspondence", ref="§6 C16, notes/C16.md"),
  "C12": dict(
@@ -110,7 +110,7 @@ CLAIMED = {
         "C17_register_exact / _order_insensitive / _untouched (registered set = units touched by the render history). Correspondence: the real RegisterCtx::{provide_context, register, to_array} with runtime strings fed through a StringArray handle, 1-3 concurrent renders; output judged by the Lean decoder and serde_json.",
    note=BASE + "The browser's JS parser ~ the JS-literal decoder of the spec; hydrate-side wasm code and <I18nContextProvider> rendering not executed. Locale names / unit ids are pushed unescaped (identifiers): explicit hypothesis UnitNamesOk.", tech="Lean 4 proof (encoder/decoder round trip by induction) + differential correspondence", ref="§6 C17, notes/C17.md"),
  "C18": dict(
-   text="Theorems: C18_formatter_args (from_name_and_args = the documented option table: first recognised occurrence else default), C18_unknown_option_ignored, C18_whitespace_insensitive, C18_unknown_name, C18_t_format_agrees (file syntax and t*_format! agree), "
+   text="Theorems: C18_formatter_args (from_name_and_args = the documented option table: first recognised occurrence else default), C18_unknown_option_ignored, C18_whitespace_insensitive, C18_unknown_name, C18_t_format_agrees (file syntax and t*_format! agree), with C06_populate_subst for formatted variables reached through `$t(..)` (checked on every clause), "
         "C18_cache_memo / _commutes / _threads (every request served make(key) whatever the history or schedule of atomic steps). Correspondence: exhaustive option product x whitespace variants through the real parser; formatted output vs direct ICU4X calls on 8 locales; request histories in one process; 16-thread races (support).",
    note=BASE + "ICU4X output is the oracle (no theorem); RwLock atomicity and leaked formatters trusted. Known finding C18-zone: time_length full|long cannot be rendered.", tech="Lean 4 proof + differential correspondence + ICU4X oracle", ref="§6 C18, notes/C18.md"),
  "C19": dict(
